@@ -868,7 +868,7 @@ impl Property for C09 {
     type Scenario = Scenario;
 
     fn rule() -> String {
-        "seeded simulations of 2-4 hosts (IPv4/IPv6, random registration order, random node order on/off), 1-3 socket-owning tasks per host; sockets bound to wildcard / localhost, fixed (shared small pool) / ephemeral ports; ops: unicast by name and by address, same-host via own address and via 127.0.0.1/::1, broadcast with and without set_broadcast, multicast after arbitrary join/leave/drop sequences (multicast_loop on/off), connect() filters, sends to unbound ports / unknown groups / unowned addresses, payload 0-64 B vs receive buffers 0-64 B, udp_capacity 1-64 with slow receivers and sender bursts, latency ranges that reorder, 10% of the runs with random link failures (safety clauses only); receive via recv_from, try_recv_from, readable()+try_recv. Oracle = reference routing model (bind-table and membership timelines): every receive must match a send whose destination set contains the socket at some instant between send and receive, with the origin address of that path and the payload cut to the buffer; at most one receive per (datagram, socket) (bipartite matching for datagrams too short to carry their id); a datagram whose destination set contains the socket during the whole delivery window, on a healthy link and with the model's queue bound within capacity, must have been received before the socket first observes an empty queue after ceil(max_latency/tick)+2 steps. Non-trivial: >=1 multicast/broadcast datagram received by >=2 sockets, or >=1 datagram lost to a full queue; distinct = digest of (op kinds, outcome kinds)".into()
+        "seeded simulations of 2-4 hosts (IPv4/IPv6, random registration order, random node order on/off), 1-3 socket-owning tasks per host; sockets bound to wildcard / localhost, fixed (shared small pool) / ephemeral ports; ops: unicast by name and by address, same-host via own address and via 127.0.0.1/::1, broadcast with and without set_broadcast, multicast after arbitrary join/leave/drop sequences (multicast_loop on/off), connect() filters, sends to unbound ports / unknown groups / unowned addresses, payload 0-64 B vs receive buffers 0-64 B, udp_capacity 1-64 with slow receivers and sender bursts, latency ranges that reorder, 10% of the runs with random link failures (safety clauses only); receive via recv_from, try_recv_from, readable()+try_recv. Oracle = reference routing model (bind-table and membership timelines): every receive must match a send whose destination set contains the socket at some instant between send and receive, with the origin address of that path and the payload cut to the buffer; at most one receive per (datagram, socket) (bipartite matching for datagrams too short to carry their id); a datagram whose destination set contains the socket during the whole delivery window, on a healthy link and with the model's queue bound within capacity, must have been received before the socket first observes an empty queue after ceil(max_latency/tick)+2 steps. Non-trivial: >=1 multicast/broadcast datagram received by >=2 sockets, or >=1 datagram lost to a full queue; distinct = digest of (op kinds, outcome kinds). Added later: sockets bound to the loopback address also send to groups, broadcast and other hosts (owed to nobody, receipts by the rightful destinations not judged); joins with a foreign interface address; re-connects; a datagram that certainly found capacity+1 earlier datagrams unread in the socket's queue must not be received.".into()
     }
     fn components_real() -> Vec<&'static str> {
         vec!["turmoil::net::UdpSocket (bind, connect, send_to, try_send_to, recv_from, try_recv_from, readable, try_recv, set_broadcast, set_multicast_loop_*, join/leave_multicast_*, Drop)", "turmoil host UDP table, MulticastGroups, Topology/Link delivery, Sim::step"]
